@@ -110,6 +110,7 @@ inductive Ev where
   | spawn (t : Tid) (child : Tid)
   | signal (t : Tid) (c : Nat)   -- close(ch) / send / the end of f in once.Do(f) / wg.Done
   | wait (t : Tid) (c : Nat)     -- the matching receive / return of once.Do / wg.Wait
+  | assume (t : Tid) (m : Mutex) (mode : Mode)   -- marker: an annotation claims that `t` holds `m` here (no effect)
 deriving DecidableEq, Repr
 
 def Ev.tid : Ev → Tid
@@ -119,6 +120,7 @@ def Ev.tid : Ev → Tid
   | .spawn t _ => t
   | .signal t _ => t
   | .wait t _ => t
+  | .assume t _ _ => t
 
 /-- state of one mutex: the exclusive holder, the multiset of shared holders -/
 structure MState where
@@ -146,6 +148,7 @@ def stepL (s : LState) : Ev → Option LState
   | .spawn _ _ => some s
   | .signal _ _ => some s
   | .wait _ _ => some s
+  | .assume _ _ _ => some s
 
 def runL (s : LState) : List Ev → Option LState
   | [] => some s
